@@ -126,10 +126,13 @@ func toValRV(rv reflect.Value) map[string]any {
 			v map[string]any
 		}
 		var kvs []kv
-		for _, k := range rv.MapKeys() {
+		// entries in KEY ORDER: by kind of key, then numbers numerically and everything else by its text (the order a loop over the map
+		// visits them in, and - for one kind of key - the order fmt prints them in)
+		keys := rv.MapKeys()
+		sort.SliceStable(keys, func(i, j int) bool { return keyLess(keys[i], keys[j]) })
+		for _, k := range keys {
 			kvs = append(kvs, kv{sprintRV(k), toValRV(rv.MapIndex(k))})
 		}
-		sort.Slice(kvs, func(i, j int) bool { return kvs[i].k < kvs[j].k })
 		lst := []any{}
 		for _, e := range kvs {
 			lst = append(lst, []any{e.k, e.v})
@@ -384,3 +387,26 @@ func fromVal(m map[string]any) any {
 type opaqueValue struct{ s string }
 
 func (o opaqueValue) String() string { return o.s }
+
+func keyLess(a, b reflect.Value) bool {
+	for a.Kind() == reflect.Interface && !a.IsNil() {
+		a = a.Elem()
+	}
+	for b.Kind() == reflect.Interface && !b.IsNil() {
+		b = b.Elem()
+	}
+	if a.Kind() != b.Kind() {
+		return a.Kind() < b.Kind()
+	}
+	switch {
+	case a.CanInt():
+		return a.Int() < b.Int()
+	case a.CanUint():
+		return a.Uint() < b.Uint()
+	case a.CanFloat():
+		return a.Float() < b.Float()
+	case a.Kind() == reflect.String:
+		return a.String() < b.String()
+	}
+	return fmt.Sprint(a) < fmt.Sprint(b)
+}
